@@ -1,8 +1,9 @@
 #!/bin/bash
 # usage: tools/par_all.sh <nslots> <tier> <dir> ...
 # Runs tools/par_seeded.sh for every given seeded/benign directory, <nslots> at a time, on
-# scratch copies under /tmp/ps, and removes the copies afterwards.
+# scratch copies under /tmp/ps-<pid>, and removes the copies afterwards.
 N=$1; TIER=$2; shift 2
 cd "$(dirname "$0")/.."
+export PS_BASE=/tmp/ps-$$   # one scratch area per invocation, removed at the end
 printf '%s\n' "$@" | xargs -P "$N" --process-slot-var=PSLOT -I{} sh -c 'tools/par_seeded.sh $PSLOT '"$TIER"' {} >/dev/null 2>&1; echo "{}: $(cut -c1-150 {}/result.txt | tr "\n" ";")"'
-rm -rf /tmp/ps
+rm -rf $PS_BASE
